@@ -10,6 +10,7 @@ import (
 	"encoding/gob"
 	"encoding/hex"
 	"fmt"
+	"io"
 	"math/big"
 	"reflect"
 	"sort"
@@ -254,36 +255,70 @@ func c15CheckStream(ms []MessagePayload) *c15Violation {
 		}
 		all = append(all, b...)
 	}
-	r := bytes.NewReader(all)
-	for i, m := range ms {
-		got := &Message{}
-		var err error
-		func() {
-			defer func() {
-				if rec := recover(); rec != nil {
-					err = fmt.Errorf("panic: %v", rec)
-				}
+	// the same bytes through the kinds of reader a connection can be: a reader with ReadByte, a plain
+	// reader that hands out everything it has, one byte at a time, and in uneven chunks
+	for _, kind := range []string{"bytes.Reader", "plain", "one-byte", "chunks"} {
+		base := bytes.NewReader(all)
+		var r io.Reader = base
+		switch kind {
+		case "plain":
+			r = plainReader{base}
+		case "one-byte":
+			r = &chunkReader{r: base, sizes: []int{1}}
+		case "chunks":
+			r = &chunkReader{r: base, sizes: []int{7, 1, 64, 3, 500, 2}}
+		}
+		for i, m := range ms {
+			got := &Message{}
+			var err error
+			func() {
+				defer func() {
+					if rec := recover(); rec != nil {
+						err = fmt.Errorf("panic: %v", rec)
+					}
+				}()
+				err = got.Deserialize(r)
 			}()
-			err = got.Deserialize(r)
-		}()
-		if err != nil {
-			return &c15Violation{"C15/stream/decode", fmt.Sprintf("message %d of %d in a concatenation failed: %v", i, len(ms), err)}
+			if err != nil {
+				return &c15Violation{"C15/stream/decode", fmt.Sprintf("message %d of %d in a concatenation failed (%s reader): %v", i, len(ms), kind, err)}
+			}
+			if got.Payload.Type() != m.Type() {
+				return &c15Violation{"C15/stream/sequence", fmt.Sprintf("message %d decoded as %s, sent %s (%s reader)", i, got.Name(), NameForMessageType(m.Type()), kind)}
+			}
+			if d := eqv(addrable(m), addrable(got.Payload), "m"); d != "" {
+				return &c15Violation{"C15/stream/value", fmt.Sprintf("message %d differs at %s (%s reader)", i, d, kind)}
+			}
 		}
-		if got.Payload.Type() != m.Type() {
-			return &c15Violation{"C15/stream/sequence", fmt.Sprintf("message %d decoded as %s, sent %s", i, got.Name(), NameForMessageType(m.Type()))}
+		if base.Len() != 0 {
+			return &c15Violation{"C15/stream/eof", fmt.Sprintf("%d bytes left after the last message (%s reader)", base.Len(), kind)}
 		}
-		if d := eqv(addrable(m), addrable(got.Payload), "m"); d != "" {
-			return &c15Violation{"C15/stream/value", fmt.Sprintf("message %d differs at %s", i, d)}
+		extra := &Message{}
+		if err := extra.Deserialize(r); err == nil {
+			return &c15Violation{"C15/stream/eof", fmt.Sprintf("decoding past the end succeeded (%s reader)", kind)}
 		}
-	}
-	if r.Len() != 0 {
-		return &c15Violation{"C15/stream/eof", fmt.Sprintf("%d bytes left after the last message", r.Len())}
-	}
-	extra := &Message{}
-	if err := extra.Deserialize(r); err == nil {
-		return &c15Violation{"C15/stream/eof", "decoding past the end succeeded"}
 	}
 	return nil
+}
+
+// plainReader hides every method of the underlying reader except Read.
+type plainReader struct{ r io.Reader }
+
+func (p plainReader) Read(b []byte) (int, error) { return p.r.Read(b) }
+
+// chunkReader returns at most sizes[k] bytes on its k-th call (cyclic).
+type chunkReader struct {
+	r     io.Reader
+	sizes []int
+	k     int
+}
+
+func (c *chunkReader) Read(b []byte) (int, error) {
+	n := c.sizes[c.k%len(c.sizes)]
+	c.k++
+	if n > len(b) {
+		n = len(b)
+	}
+	return c.r.Read(b[:n])
 }
 
 func c15RunReplay(t *testing.T, rep *verifkit.Report, path string) {
@@ -385,7 +420,7 @@ func TestC15RoundTrip(t *testing.T) {
 }
 
 func TestC15Stream(t *testing.T) {
-	rep := verifkit.NewReport("C15", "TestC15Stream", "concatenations of 2..6 generated messages decoded from one stream; non-trivial = at least two different types and total length > 40; distinct by stream hash")
+	rep := verifkit.NewReport("C15", "TestC15Stream", "concatenations of 2..6 generated messages decoded from one stream through four kinds of reader (with ReadByte, plain, one byte at a time, uneven chunks); non-trivial = at least two different types and total length > 40; distinct by stream hash")
 	defer rep.Finish(t)
 	if f := verifkit.ReplayFile("TestC15Stream"); f != "" {
 		c15RunReplay(t, rep, f)
